@@ -28,6 +28,26 @@ pub fn apply_string_escapes(code: &str) -> String {
     }
 }
 
+/// Quote text as a string literal: the inverse of [`apply_string_escapes`].
+/// Only the escapes that function decodes are produced; every other character,
+/// control characters included, is legal inside a literal and is kept as it is.
+pub fn quote_string(text: &str) -> String {
+    let mut code = String::with_capacity(text.len() + 2);
+    code.push('"');
+    for ch in text.chars() {
+        match ch {
+            | '\\' => code.push_str("\\\\"),
+            | '"' => code.push_str("\\\""),
+            | '\n' => code.push_str("\\n"),
+            | '\r' => code.push_str("\\r"),
+            | '\t' => code.push_str("\\t"),
+            | ch => code.push(ch),
+        }
+    }
+    code.push('"');
+    code
+}
+
 pub fn apply_char_escapes(code: &str) -> char {
     let mut iter = code.chars();
     // remove the quotes
